@@ -93,7 +93,11 @@ func genError(tp *simrt.Tape) *conformancev1.Error {
 	case 3:
 		e.Message = proto.String("héllo wörld ✓ 你好")
 	case 4:
-		e.Message = proto.String("100% broken: a\tb\nc & d + e")
+		// messages that need (or look like) the percent-encoding of grpc-message,
+		// several specials at once or exactly one kind of special character
+		msgs := []string{"100% broken: a\tb\nc & d + e", "quota is 100% used", "%", "100%", "already %2F escaped", "50%25 literal",
+			"tab\there", "line\nbreak", "ünï only", "plus+and&amp", "ends with percent %", "%41 at the start"}
+		e.Message = proto.String(msgs[tp.Choose(len(msgs), "err.special")])
 	case 5:
 		if tp.Bool(1, 4, "err.trailingspace") {
 			e.Message = proto.String("trailing space ")
